@@ -653,6 +653,9 @@ def run(ctx):
                   ["e1", "e2", "e3", "e127", "e128", "e254", "e255", "s9", "s15", "s11"] + ["e%d" % rng.randrange(1, 256) for _ in range(10)])]
         with concurrent.futures.ThreadPoolExecutor(max_workers=8) as ex:
             limpl = list(ex.map(lambda h: run_batch([exe], [["xd " + h]], env=env, timeout=60)[0], lates))
+        for i, (h, (ans, crash)) in enumerate(zip(lates, limpl)):      # a time-out alone is tried once more (loaded machine)
+            if crash is not None and "TIMEOUT" in crash:
+                limpl[i] = run_batch([exe], [["xd " + h]], env=env, timeout=90)[0]
         lmod = ctx.model("exit", "".join("xd %s\n" % h.split("_")[1] for h in lates), args=["model", bits])
         for h, (ans, crash), m in zip(lates, limpl, lmod):
             cov["evaluations"] += 1
